@@ -376,6 +376,61 @@ func run(r *core.Run) int {
 			}
 		}
 	}
+	// the same with the CALLER's context running out while a responder hangs: the
+	// OCSP phase ends Unknown on a context that is done, and the certificate's
+	// result must still be the CRL phase's (whatever a download can achieve then)
+	var deadline []*sims.Scenario
+	for _, o := range [][]string{{"hang"}, {"err", "hang"}, {"unknown-status", "hang"}} {
+		for _, c := range [][]string{{"clean"}, {"lists"}, {"clean", "lists"}} {
+			for _, route := range []string{"http", "fetcher"} {
+				for _, cache := range []string{"", "healthy"} {
+					if cache != "" && route != "http" {
+						continue
+					}
+					sc := &sims.Scenario{Len: 2, CAKind: "p256", Entry: "validate", CRLRoute: route, Cache: cache, DeadlineMs: 25}
+					sc.Plans = []sims.CertPlan{plan(o, c), {}}
+					deadline = append(deadline, sc)
+				}
+			}
+		}
+	}
+	r.Parallel(len(deadline), func(i int) {
+		sc := deadline[i]
+		env := sc.Prepare()
+		if sc.Cache != "" {
+			// warm the cache with an earlier call whose responder answers at once
+			warm := *sc
+			warm.DeadlineMs = 0
+			wo := make([]string, len(sc.Plans[0].OCSP)) // same certificate: same number of responders
+			for k := range wo {
+				wo[k] = "err"
+			}
+			warm.Plans = []sims.CertPlan{plan(wo, sc.Plans[0].CRL), {}}
+			env = warm.Prepare()
+			env.Run(context.Background())
+			env.Replan(sc)
+		}
+		out := env.Run(context.Background())
+		r.Eval(1)
+		if out.Stuck || out.Panic != nil || out.Err != nil || len(out.Results) != 2 || out.Results[0] == nil {
+			r.Violation("deadline:no-results", fmt.Sprintf("%s: stuck=%v panic=%v err=%v", sc.Desc(), out.Stuck, out.Panic != nil, out.Err), sc)
+			return
+		}
+		got := sims.Canon(out.Results)[0]
+		nO, crlEntries := len(sc.Plans[0].OCSP), 0
+		for _, s := range got.Servers {
+			if s.Method == "CRL" {
+				crlEntries++
+			}
+		}
+		_ = nO // (an unknown-status answer ends the OCSP phase with a single entry)
+		if got.Method != "OCSPFallbackCRL" || crlEntries == 0 || len(got.Servers) < 2 || got.Servers[0].Method != "OCSP" {
+			r.Violation("deadline:fallback-skipped", fmt.Sprintf("%s: the OCSP phase ended Unknown (the caller's context ran out on a hanging responder) and the certificate names distribution points, but the result is %s", sc.Desc(), got.String()), sc)
+			return
+		}
+		r.Count("fallback-on-a-finished-context", 1)
+		r.Nontrivial("deadline " + sc.Desc())
+	})
 	// sampled: richer alphabets, up to 3+3, longer chains
 	rng := r.Rand("sampled")
 	n := r.Pick(6000, 150000)
@@ -505,7 +560,8 @@ func run(r *core.Run) int {
 		core.Require{Counter: "method-OCSPFallbackCRL", Why: "fallback never seen"},
 		core.Require{Counter: "method-Unknown", Why: "NonRevokable never seen"},
 		core.Require{Counter: "second-calls-on-the-same-validator", Why: "no two-call history"},
-		core.Require{Counter: "second-calls-behind-a-caching-fetcher", Why: "no two-call history through a caching HTTPFetcher"})
+		core.Require{Counter: "second-calls-behind-a-caching-fetcher", Why: "no two-call history through a caching HTTPFetcher"},
+		core.Require{Counter: "fallback-on-a-finished-context", Why: "no fallback observed on a finished context"})
 }
 
 func replay(r *core.Run, path string) int {
